@@ -133,3 +133,16 @@ class Memo:
         if key not in Memo.CACHE:
             Memo.CACHE[key] = sum(word)   # NOT exempt: len(word) does not preserve `word`
         return Memo.CACHE[key]
+
+
+@functools.lru_cache()
+def cached_bits(n: int) -> bitarray:
+    return bitarray(n * [0])
+
+
+def encode_hands_out_cached(n: int) -> bitarray:
+    return cached_bits(n)            # the one cached object goes to every caller
+
+
+def encode_copies_cached(n: int) -> bitarray:
+    return cached_bits(n).copy()     # pure twin: a private copy
